@@ -16,6 +16,28 @@ use core::sync::atomic::{AtomicBool, Ordering};
 use tiny_std::allocator::dlmalloc::Dlmalloc;
 
 pub const POISON: u8 = 0xA5;
+/// RED ZONES: every block handed out sits between a front zone of max(align, 16) bytes and a rear
+/// zone of max(align, 64) bytes, both filled with CANARY; they are verified when the block is freed, when it
+/// leaves the quarantine and at every dump, so a write before / past a block is seen even if it
+/// hits nothing else.
+pub const CANARY: u8 = 0xC7;
+/// rear zone: 64 bytes, or the alignment if that is larger (an over-aligned value put at a wrong
+/// offset can overshoot by almost its alignment)
+fn rear_of(align: usize) -> usize {
+    if align > 64 {
+        align
+    } else {
+        64
+    }
+}
+
+fn front_of(align: usize) -> usize {
+    if align > 16 {
+        align
+    } else {
+        16
+    }
+}
 const MAXLIVE: usize = 4096;
 const MAXLOG: usize = 16384;
 const MAXQ: usize = 4096;
@@ -52,6 +74,9 @@ struct Inner {
     nquar: usize,
     evict_bad: u64,
     evict_first: [usize; 4], // addr, size, offset, byte of the first spoiled evicted block
+    canary_bad: u64,
+    canary_rec: [[usize; 5]; 8], // addr, size, 0 front / 1 rear, offset inside the zone, byte
+    ncanary_rec: usize,
     quar_lost: usize,
     live_lost: usize,
     allocs: u64,
@@ -100,6 +125,9 @@ pub static GA: Counting = Counting {
         nquar: 0,
         evict_bad: 0,
         evict_first: [0; 4],
+        canary_bad: 0,
+        canary_rec: [[0; 5]; 8],
+        ncanary_rec: 0,
         quar_lost: 0,
         live_lost: 0,
         allocs: 0,
@@ -130,6 +158,32 @@ impl Counting {
 }
 
 impl Inner {
+    /// verify both red zones of a block; spoiled bytes are counted and the first few recorded
+    unsafe fn check_zones(&mut self, b: Live) {
+        let front = front_of(b.align);
+        let base = (b.addr - front) as *const u8;
+        for (which, start, len) in [(0usize, 0usize, front), (1, front + b.size, rear_of(b.align))] {
+            let mut first = true;
+            for off in 0..len {
+                let v = base.add(start + off).read_volatile();
+                if v != CANARY {
+                    self.canary_bad += 1;
+                    if first && self.ncanary_rec < 8 {
+                        self.canary_rec[self.ncanary_rec] = [b.addr, b.size, which, off, v as usize];
+                        self.ncanary_rec += 1;
+                    }
+                    first = false;
+                    // heal, so that the same damage is reported once
+                    (base.add(start + off) as *mut u8).write_volatile(CANARY);
+                }
+            }
+        }
+    }
+
+    unsafe fn real_free(&mut self, b: Live) {
+        self.dl.free((b.addr - front_of(b.align)) as *mut u8);
+    }
+
     fn push_log(&mut self, op: u8, addr: usize, size: usize, align: usize) {
         if !self.log_on {
             return;
@@ -156,11 +210,16 @@ impl Inner {
 unsafe impl GlobalAlloc for Counting {
     unsafe fn alloc(&self, l: Layout) -> *mut u8 {
         self.with(|s| {
-            let p = s.dl.malloc(l.size(), l.align());
-            if p.is_null() {
+            let front = front_of(l.align());
+            let rear = rear_of(l.align());
+            let base = s.dl.malloc(front + l.size() + rear, l.align());
+            if base.is_null() {
                 s.push_log(b'N', 0, l.size(), l.align());
-                return p;
+                return base;
             }
+            core::ptr::write_bytes(base, CANARY, front);
+            core::ptr::write_bytes(base.add(front + l.size()), CANARY, rear);
+            let p = base.add(front);
             s.allocs += 1;
             if s.nlive < MAXLIVE {
                 s.live[s.nlive] = Live {
@@ -207,6 +266,7 @@ unsafe impl GlobalAlloc for Counting {
             s.live_bytes -= ent.size;
             s.live_hash = s.live_hash.wrapping_sub(mix(ent.size, ent.align));
             s.frees += 1;
+            s.check_zones(ent);
             // log the layout the caller passed (a mismatch with the allocation's is visible)
             s.push_log(b'f', a, l.size(), l.align());
             if s.quar_on {
@@ -226,14 +286,15 @@ unsafe impl GlobalAlloc for Counting {
                             s.evict_bad += 1;
                         }
                     }
-                    s.dl.free(old.addr as *mut u8);
+                    s.check_zones(old);
+                    s.real_free(old);
                 }
                 core::ptr::write_bytes(p, POISON, ent.size);
                 let at = (s.qhead + s.nquar) % MAXQ;
                 s.quar[at] = ent;
                 s.nquar += 1;
             } else {
-                s.dl.free(p);
+                s.real_free(ent);
             }
         });
     }
@@ -351,6 +412,31 @@ pub fn dump(_locked: bool) {
             }
         }
         out::line("poison", &[s.nquar as u64, bad]);
+        // red zones of everything still allocated or quarantined
+        for i in 0..s.nquar {
+            let q = s.quar[(s.qhead + i) % MAXQ];
+            unsafe { s.check_zones(q) };
+        }
+        for i in 0..s.nlive {
+            let l = s.live[i];
+            unsafe { s.check_zones(l) };
+        }
+        for i in 0..s.ncanary_rec {
+            let r = s.canary_rec[i];
+            out::s("canarybad ");
+            out::x(r[0] as u64);
+            out::sp();
+            out::u(r[1] as u64);
+            out::sp();
+            out::u(r[2] as u64);
+            out::sp();
+            out::u(r[3] as u64);
+            out::sp();
+            out::u(r[4] as u64);
+            out::nl();
+        }
+        s.ncanary_rec = 0;
+        out::line("canary", &[(s.nquar + s.nlive) as u64, s.canary_bad]);
         for i in 0..(if s.log_on { s.nlive } else { 0 }) {
             let l = s.live[i];
             out::s("live ");
